@@ -1,13 +1,26 @@
 //! pfv — harness binding the TLA+ specification to the real pickle-fuzzer code.
 mod common;
 mod edges;
+mod history;
 mod jobs;
+
+#[global_allocator]
+static GLOBAL: history::Counting = history::Counting;
 
 fn main() {
     let args: Vec<String> = std::env::args().skip(1).collect();
     let code = match args.first().map(|s| s.as_str()) {
         Some("run-jobs") => jobs::main(&args[1..]),
         Some("edges") => edges::main(&args[1..]),
+        Some("replay-paths") => edges::replay_paths(&args[1..]),
+        Some("reuse") => history::reuse(&args[1..]),
+        Some("determinism") => history::determinism(&args[1..]),
+        Some("gen-batch") => history::gen_batch(&args[1..]),
+        Some("total") => history::total(&args[1..]),
+        Some("total-child") => history::total_child(&args[1..]),
+        Some("opscan") => history::opscan(&args[1..]),
+        Some("leak") => history::leak(&args[1..]),
+        Some("libgen") => history::libgen(&args[1..]),
         _ => {
             eprintln!("usage: pfv <run-jobs|...> ...");
             2
